@@ -175,6 +175,24 @@ def run_property(pid, tier):
     if kani_units:
         from . import kani
         results.extend(kani.run_units(kani_units, tup, pid))
+    twin_runs = []
+    if tier == 'thorough':
+        # exploration on top of the proofs: the executable contract twins of the property's units, large budget, on the real crate.
+        # A failing input is a violation with a replay; a clean sweep proves nothing and is reported as exploration only.
+        from . import witness as W
+        try:
+            twin_runs, twin_fails = W.sweep(pid, [u['name'] for u in units], seed)
+        except Exception as e:
+            twin_runs, twin_fails = [{'case': None, 'error': str(e)[:300]}], []
+        if twin_fails:
+            tr = R.UnitResult('twin')
+            tr.backend = 'twin'
+            tr.status = 'failed'
+            for w in twin_fails:
+                tr.failed.append({'name': 'twin::%s::executable-contract[%s]' % (w['case'], w['reason'][:160]), 'unit': 'twin', 'fn': w['case'], 'kind': 'twin',
+                                  'clause': None, 'site': None, 'site_line': None, 'lib_site': None, 'props': [pid],
+                                  'message': 'executable contract twin fails on the real crate: ' + w['reason'][:300], 'rendered': w['reason'], 'witness': w})
+            results.append(tr)
     findings = load_findings()
     known = [f for f in findings.get('findings', []) if f['property'] == pid]
     violations = []
@@ -190,7 +208,7 @@ def run_property(pid, tier):
         for fo in r.failed:
             if not failed_relevant(fo, pid):
                 continue
-            k = next((f for f in known if f['obligation'] == fo['name']), None)
+            k = next((f for f in known if f['obligation'] == fo['name'] or any(fo['name'].startswith(px) for px in f.get('also_prefixes', []))), None)
             if k is not None:
                 known_hits.append((k, fo))
             else:
@@ -233,14 +251,14 @@ def run_property(pid, tier):
     for r in results:
         if r.degraded and r.status == 'ok':
             print('NOTE unit=%s verified without some proof hints: %s' % (r.name, '; '.join(r.degraded)))
-    write_evidence(evpath, pid, tier, seed, level, results, violations, known_hits, inconclusive, t0, claim)
+    write_evidence(evpath, pid, tier, seed, level, results, violations, known_hits, inconclusive, t0, claim, twin_runs=twin_runs)
     if rc == 0:
         nob = sum(1 for r in results for o in r.obligations if relevant(o, pid))
         print('OK property=%s tier=%s units=%d obligations=%d wall=%.1fs' % (pid, tier, len(results), nob, time.time() - t0))
     return rc
 
 
-def write_evidence(evpath, pid, tier, seed, level, results, violations, known_hits, inconclusive, t0, claim, note=None):
+def write_evidence(evpath, pid, tier, seed, level, results, violations, known_hits, inconclusive, t0, claim, note=None, twin_runs=None):
     obs = []
     # obligations of a function with a listed known finding are not claimed: they are reported under known_findings_hit
     known_fns = set((fo['unit'], fo['fn']) for (_k, fo) in known_hits)
@@ -323,6 +341,7 @@ def write_evidence(evpath, pid, tier, seed, level, results, violations, known_hi
         'failed_obligations': [fo['name'] for fo in violations],
         'known_findings_hit': [k['what_fails'] for k, _ in known_hits],
         'known_finding_obligations_excluded': excluded_known,
+        'thorough_twin_exploration': {'note': 'executable contract twins run on the real crate in the thorough tier; exploration, never counted as proved', 'runs': twin_runs or []},
         'inconclusive_units': [{'unit': r.name, 'reason': r.reason} for r in inconclusive],
         'explanation': claim.get('text', ''),
         'evaluations': max(1, n_ob),
